@@ -54,5 +54,23 @@ UNIT = Unit(
            rewrites=[(re.compile(r"\.clone\(\)"), ".vclone()", "*"), (re.compile(r",\s*\}\s*$"), "\n}", 1)],
            obligation="`while`: condition and body keep their places",
            contract="ensures while_ok(r, **cond, **body, *ty),"),
+        Fn(file=CM, name="compile_expr", rename="compile_tuple_expr", ret="r", attrs="#[verifier::loop_isolation(false)]",
+           rules=["attrs", ("strip", "tast::"), ("strip", "common_defs::"), "iter_map_collect"],
+           cut_from=re.compile(r"\n        ETuple \{ items, ty \} => \{"), cut_inside=True, cut_before="@block-end", cut_tail="",
+           sig="fn compile_tuple_expr(items: &Vec<Expr>, ty: &Ty, genv: &GlobalTypeEnv, gensym: &Gensym, diagnostics: &mut Diagnostics) -> core::Expr",
+           rewrites=[(re.compile(r"\.clone\(\)"), ".vclone()", "*"), (re.compile(r"let items = \{ let mut __mo0 = Vec::new\(\);"), "let items = { let mut __mo0: Vec<core::Expr> = Vec::new();", "*")],
+           obligation="tuple: the components compiled from the items, in order",
+           contract="ensures r matches core::Expr::ETuple { items: out, ty: t } && cores_of(items@, out@) && t == *ty,",
+           loop_fn=lambda k, header, kw: ("invariant __mi0 <= items@.len(), __mo0@.len() == __mi0, forall|i: int| 0 <= i < __mi0 ==> #[trigger] __mo0@[i] == core_of(items@[i]),\n"
+                                          "decreases items@.len() - __mi0,")),
+        Fn(file=CM, name="compile_expr", rename="compile_constr_expr", ret="r", attrs="#[verifier::loop_isolation(false)]",
+           rules=["attrs", ("strip", "tast::"), ("strip", "common_defs::"), "iter_map_collect"],
+           cut_from=re.compile(r"\n        EConstr \{\s*constructor,\s*args,\s*ty,\s*\} => \{"), cut_inside=True, cut_before="@block-end", cut_tail="",
+           sig="fn compile_constr_expr(constructor: &Constructor, args: &Vec<Expr>, ty: &Ty, genv: &GlobalTypeEnv, gensym: &Gensym, diagnostics: &mut Diagnostics) -> core::Expr",
+           rewrites=[(re.compile(r"\.clone\(\)"), ".vclone()", "*"), (re.compile(r"let args = \{ let mut __mo0 = Vec::new\(\);"), "let args = { let mut __mo0: Vec<core::Expr> = Vec::new();", "*")],
+           obligation="constructor application: the same constructor, the arguments compiled from the arguments, in order",
+           contract="ensures r matches core::Expr::EConstr { constructor: c, args: out, ty: t } && c == *constructor && cores_of(args@, out@) && t == *ty,",
+           loop_fn=lambda k, header, kw: ("invariant __mi0 <= args@.len(), __mo0@.len() == __mi0, forall|i: int| 0 <= i < __mi0 ==> #[trigger] __mo0@[i] == core_of(args@[i]),\n"
+                                          "decreases args@.len() - __mi0,")),
     ],
 )
